@@ -1,5 +1,5 @@
 import PystogVerif.Spec.Conv
-import PystogVerif.VecAttr
+import PystogVerif.Proofs.Pointwise
 import PystogVerif.Gen.Converter
 import Mathlib.Tactic.Ring
 import Mathlib.Tactic.FieldSimp
@@ -54,43 +54,6 @@ noncomputable def gconv : GFn → GFn → Kw ℝ → Junk ℝ → Vec ℝ → Ve
   | .GK, .GK => fun _ _ => ident
 
 end GenTable
-
-theorem getElem?_isSome_eq {α β : Type} (q : List α) (y : List β) (h : q.length = y.length) (i : Nat) :
-    q[i]?.isSome = y[i]?.isSome := by
-  by_cases hi : i < q.length
-  · have hj : i < y.length := h ▸ hi
-    simp [hi, hj]
-  · have hj : ¬ i < y.length := h ▸ hi
-    simp [hi, hj]
-
-/-- uniform refinement tactic: compare two list expressions built from `zipWith`/`map` over the base
-    lists `x`, `y` (of equal length, hypothesis `h`) entry by entry -/
-macro "pointwise2" x:ident y:ident h:ident " [" defs:Lean.Parser.Tactic.simpLemma,* "]" : tactic =>
-  `(tactic| (
-    apply List.ext_getElem?
-    intro i
-    have hiff := getElem?_isSome_eq $x $y $h i
-    simp only [conv_unfold, vec_unfold, List.zip_eq_zipWith, List.getElem?_zipWith, List.getElem?_map]
-    cases hx : ($x)[i]? <;> cases hy : ($y)[i]? <;> (try simp [hx, hy] at hiff) <;> simp [$defs,*]))
-
-/-- closes the scalar identities left by `pointwise2` (guards split, positivity of the abscissa used) -/
-macro "conv_close" : tactic =>
-  `(tactic| (
-    try split_ifs
-    all_goals first
-      | rfl
-      | (norm_num; done)
-      | ring1
-      | (left; ring1)
-      | (field_simp; done)
-      | (field_simp; ring)
-      | (rename_i h; have := ne_of_gt h; first | (left; field_simp; done) | (field_simp; done) | (field_simp; ring) | (left; field_simp; ring))))
-
-/-- closes a scalar identity over ℝ (field identity under the nonzero facts in context) -/
-macro "scalar_close" : tactic =>
-  `(tactic| (first
-    | rfl | trivial | (norm_num; done) | ring1 | (field_simp; done) | (field_simp; ring1)
-    | (left; ring1) | (left; field_simp; done) | (left; field_simp; ring1) | (simp; done)))
 
 section
 variable (kw : Kw ℝ) (junk : Junk ℝ)
